@@ -43,7 +43,7 @@ def c_bonferroni():
                              ('C06-flags-at-the-original-positions', 'result.size == pvalues.size'),
                              ('C06-an-undefined-p-value-is-never-accepted', 'all(implies(isnan(pvalues[i]), result[i]) for i in range(pvalues.size))'),
                              ('p-values-untouched', 'pvalues is old(pvalues)')],
-                    signals={})
+                    returns=lambda I, base: I.world.lib.fresh_array(I, base, dtype='bool'), signals={})
 
 
 def c_holm():
@@ -97,6 +97,113 @@ def c_res(cls, method, nd):
     return Contract(BF, f'{cls}.{method}', params={}, returns=ret, ensures=ens, signals={}, variant=f'{nd}-datasets')
 
 
+# ---- evaluate(): the corrections are applied to every p-value array of the underlying result, unconditionally, with the test's own level
+RESULT_FIELDS = {'TestResultBonferroni': ('test', 'first_test_res', 'rejected_null_hyp'), 'TestResultHolmBonferroni': ('test', 'first_test_res', 'alphas_i', 'rejected_null_hyp')}
+
+
+def _super_call(I, me, name, args, kwargs):
+    # assumed contracts of the parents' constructors (valjean/gavroche/test.py: TestResult.__init__ stores the test; Test.__init__ stores name, description, labels)
+    if name == '__init__' and len(args) == 1 and not kwargs:
+        I.setfield(me, 'test', args[0])
+        return None
+    if name == '__init__' and not args:
+        for k in ('name', 'description', 'labels'):
+            I.setfield(me, k, kwargs.get(k))
+        return None
+    raise Undecided(f'super().{name}')
+
+
+def _eval_world(nd, cls):
+    w = _world()
+    w.super_call = _super_call
+    w.inline_properties = True      # ntests is a @property of the class under verification: its real body is executed
+    for cname in RESULT_FIELDS:
+        w.globals[cname] = SClass(cname)
+    for cname in ('TestBonferroni', 'TestHolmBonferroni', 'TestResultBonferroni', 'TestResultHolmBonferroni', 'UnderlyingResult', 'DsRef'):
+        w.class_models[cname] = type(cname, (ClassModel,), {'name': cname, 'fields': {}})(w)
+
+    class Under(ClassModel):
+        name = 'UnderlyingTest'
+        fields = {}
+
+        def m_evaluate(self, I, me):
+            I.trace.append(('underlying-evaluate',))
+            return I.underlying_result
+    w.class_models['UnderlyingTest'] = Under(w)
+    w.class_models['UnderlyingResult'].m___bool__ = lambda I, me: I.fresh(BOOL, 'underlying_verdict')
+
+    def new_result(cname):
+        def build(I, args, kwargs):
+            # the constructors' contracts (verified by the units init_*): every argument is stored under its own name
+            return I.alloc(cname, dict(zip(RESULT_FIELDS[cname], args)))
+        return build
+    for cname in RESULT_FIELDS:
+        w.construct_hooks[cname] = new_result(cname)
+    w.add(c_bonferroni())
+
+    def setup(I, scope):
+        L = I.world.lib
+        I.trace = []
+        pv = [L.fresh_array(I, f'pvalue{k}') for k in range(nd)]
+        I.underlying_result = I.alloc('UnderlyingResult', {'pvalue': pv})
+        under = I.alloc('UnderlyingTest', {})
+        me = I.alloc(cls, {'test': under, 'alpha': I.fresh(NUM, 'alpha'), 'bonf_signi_level': I.fresh(NUM, 'bonf_signi_level')})
+        scope.set('self', me)
+        scope.set('underlying_result', I.underlying_result)
+        I.holm_calls = []
+    return w, setup
+
+
+def c_evaluate_bonferroni(nd):
+    per = ' and '.join(f'result.rejected_null_hyp[{k}].size == underlying_result.pvalue[{k}].size and '
+                       f'all(same(result.rejected_null_hyp[{k}][i], not (underlying_result.pvalue[{k}][i] > self.bonf_signi_level)) for i in range(underlying_result.pvalue[{k}].size))'
+                       for k in range(nd))
+    return Contract(BF, 'TestBonferroni.evaluate', params={}, returns='Obj:TestResultBonferroni',
+                    ensures=[('C06-every-bin-of-every-dataset-is-flagged-iff-at-most-the-bonferroni-level-or-undefined', f'len(result.rejected_null_hyp) == {nd} and {per}'),
+                             ('C06-the-result-keeps-the-underlying-result-and-the-test', 'result.first_test_res is underlying_result and result.test is self')],
+                    signals={}, variant=f'{nd}-datasets')
+
+
+def c_evaluate_holm(nd):
+    return Contract(BF, 'TestHolmBonferroni.evaluate', params={}, returns='Obj:TestResultHolmBonferroni',
+                    ensures=[('C06-the-result-keeps-the-underlying-result-and-the-test', 'result.first_test_res is underlying_result and result.test is self')],
+                    signals={}, variant=f'{nd}-datasets')
+
+
+def _holm_check(nd):
+    def check(I, scope, outcome):
+        # holm_bonferroni_method (verified above) is applied once per p-value array, in order, with the overall level; its outputs are reported unchanged
+        L = f'{BF}::TestHolmBonferroni.evaluate[{nd}-datasets]'
+        calls = I.holm_calls
+        I.path.oblige(f'{L}::post::C06-holm-is-applied-to-every-p-value-array-in-order-with-the-overall-level',
+                      len(calls) == nd and all(c[0] is I.underlying_result_pv[k] and c[1] is I.self_alpha for k, c in enumerate(calls)), kind='post',
+                      meta={'expr': 'holm_bonferroni_method(pvalue[k], self.alpha) for k = 0 .. n-1, nothing else'})
+        result = outcome[1] if outcome[0] == 'return' else None
+        ok = False
+        if len(calls) == nd and isinstance(result, SObj):
+            al, rj = I.getfield(result, 'alphas_i'), I.getfield(result, 'rejected_null_hyp')
+            ok = isinstance(al, (list, tuple)) and isinstance(rj, (list, tuple)) and len(al) == nd and len(rj) == nd and \
+                all(al[k] is calls[k][2] and rj[k] is calls[k][3] for k in range(nd))
+        I.path.oblige(f'{L}::post::C06-levels-and-flags-of-each-dataset-are-those-the-method-returned', ok, kind='post',
+                      meta={'expr': 'result.alphas_i[k], result.rejected_null_hyp[k] == holm_bonferroni_method(pvalue[k], self.alpha)'})
+    return check
+
+
+def c_init(cls):
+    if cls in RESULT_FIELDS:
+        fs = RESULT_FIELDS[cls]
+        params = {f: 'Ref:Any' for f in fs}
+        ens = [('C06-the-result-stores-what-it-is-given', ' and '.join(f'same(self.{f}, {f})' for f in fs))]
+        return Contract(BF, f'{cls}.__init__', params=params, ensures=ens, signals={})
+    params = {'name': 'Str', 'description': 'Str', 'labels': 'None', 'test': 'Obj:UnderlyingTest', 'alpha': 'Num'}
+    if cls == 'TestBonferroni':      # np.float_: 0-d numpy scalars
+        ens = [('C06-the-level-is-two-sided', 'same(self.alpha.item(), alpha / 2.0) and self.test is test'),
+               ('C06-the-bonferroni-level-is-the-overall-level-over-the-number-of-bins', 'same(self.bonf_signi_level.item(), (alpha / 2.0) / test.dsref.size)')]
+    else:
+        ens = [('C06-the-level-is-two-sided', 'same(self.alpha, alpha / 2.0) and self.test is test')]
+    return Contract(BF, f'{cls}.__init__', params=params, requires=['test.dsref.size >= 1'], ensures=ens, signals={})
+
+
 def lemmas():
     out = []
     p, level, m, j = z3.Reals('p level m j')
@@ -115,7 +222,7 @@ def lemmas():
 
 
 def units(tier):
-    return ['bonferroni', 'holm', 'results', 'lemmas', 'native']
+    return ['bonferroni', 'holm', 'results', 'evaluate', 'init', 'lemmas', 'native']
 
 
 def _replay_native(name, inp):
@@ -153,6 +260,37 @@ def run_unit(unit, tier, seed, known):
         return {'functions': [D(verify_function(_world(), c_bonferroni()))]}
     if unit == 'holm':
         return {'functions': [D(verify_function(_world(), c_holm()))]}
+    if unit == 'evaluate':
+        out = []
+        for nd in (1, 2):
+            w, setup = _eval_world(nd, 'TestBonferroni')
+            out.append(D(verify_function(w, c_evaluate_bonferroni(nd), setup=setup)))
+            w, setup = _eval_world(nd, 'TestHolmBonferroni')
+
+            def setup2(I, scope, setup=setup):
+                setup(I, scope)
+                I.underlying_result_pv = I.getfield(I.underlying_result, 'pvalue')
+                I.self_alpha = I.getfield(scope.lookup('self'), 'alpha')
+
+            def m_holm(I, me, pvals, alpha):
+                a, r = I.world.lib.fresh_array(I, 'holm_levels'), I.world.lib.fresh_array(I, 'holm_flags', dtype='bool')
+                I.holm_calls.append((pvals, alpha, a, r))
+                return (a, r)
+            w.class_models['TestHolmBonferroni'].m_holm_bonferroni_method = m_holm
+            out.append(D(verify_function(w, c_evaluate_holm(nd), setup=setup2, extra_check=_holm_check(nd))))
+        return {'functions': out}
+    if unit == 'init':
+        out = []
+        for cls in ('TestBonferroni', 'TestHolmBonferroni', 'TestResultBonferroni', 'TestResultHolmBonferroni'):
+            w, _ = _eval_world(1, cls)
+
+            def setup3(I, scope, cls=cls):
+                scope.set('self', I.alloc(cls, {}))
+                if scope.has('test') and isinstance(scope.lookup('test'), SObj) and cls not in RESULT_FIELDS:
+                    ds = I.alloc('DsRef', {'size': I.fresh(INT, 'nbins')})
+                    I.setfield(scope.lookup('test'), 'dsref', ds)
+            out.append(D(verify_function(w, c_init(cls), setup=setup3)))
+        return {'functions': out}
     out = []
     for cls in ('TestResultBonferroni', 'TestResultHolmBonferroni'):
         for method in ('oracles', '__bool__'):
